@@ -6,7 +6,8 @@ Python-level model of the four primitive wire types whose *value ↔ wire intege
 integer / the 16 bytes / the bit pattern):
 
 * `FixedPoint`   (`minecraft/networking/types/basic.py:114-129`): the object carries `integer_type`
-  and `denominator = 2**fractional_bits`; `send`/`read` scale by *that* denominator.
+  and `denominator = 2**fractional_bits`; `send`/`read` scale by *that* denominator; `read` is Python's
+  `int / int`, i.e. the correctly rounded binary64 quotient (`intTrueDiv`, CPython `long_true_divide`).
 * `UUID`         (`basic.py:303-310`): `uuid.UUID(text).bytes` / `str(uuid.UUID(bytes=…))`
   (CPython 3.12 `Lib/uuid.py`, `UUID.__init__` hex branch and `UUID.__str__`, and `int(hex, 16)` of
   `Objects/longobject.c:PyLong_FromString` restricted to ASCII input).
@@ -48,16 +49,6 @@ def FixedPointT.send (cc : CustomCodec) (fp : FixedPointT) (p q : Int) : Except 
   let n := p * (fp.denominator : Int)
   if (2 : Int) ^ 1024 * q ≤ n ∨ (2 : Int) ^ 1024 * q ≤ -n then .error .other
   else encode cc (.int fp.integerType) (.int (Int.tdiv n q))
-
-/-- `FixedPoint.read` (basic.py:121-122): `self.integer_type.read(file_object) / self.denominator`,
-returned as the exact fraction `(numerator, denominator)` (Python rounds this quotient to the nearest
-binary64, which is exact whenever `|numerator| < 2^53`, i.e. for every base type up to 32 bits). -/
-def FixedPointT.read (cc : CustomCodec) (fp : FixedPointT) (bs : Bytes) :
-    Except Err ((Int × Int) × Bytes) := do
-  let (v, r) ← decode cc (.int fp.integerType) bs
-  match v with
-  | .int w => pure ((w, (fp.denominator : Int)), r)
-  | _ => .error .type
 
 /-- every `(base, bits)` of a `.fixed` code occurring in a wire type (used to read the generated
 packet layouts) -/
@@ -255,6 +246,60 @@ def widenF32 (r : Nat) : Nat :=
     else s * 2 ^ 63 + (F.log2 + 874) * 2 ^ 52 + (F * 2 ^ (52 - F.log2) - 2 ^ 52)
   else s * 2 ^ 63 + (E + 896) * 2 ^ 52 + F * 2 ^ 29
 
+/-! ## Python `int / int` (CPython `Objects/longobject.c:long_true_divide`) and `FixedPoint.read` -/
+
+/-- exponent (in units of `2^-1074`) of the binary64 spacing at a magnitude of `t` units (`t` the
+integer part): `ulp = 2^(⌊log2 t⌋-52)`, never below the subnormal spacing of one unit -/
+def f64Quantum (t : Nat) : Nat := t.log2 - 52
+
+/-- IEEE-754 roundTiesToEven of the RATIONAL magnitude `(N / d) · 2^-1074` (`d > 0`) to binary64, as a
+sign-less pattern: round `N / d` to a multiple of the spacing at that magnitude (ties to the even
+multiple) and pack exponent and significand (a carry out of the significand propagates into the
+exponent field by plain addition). The result reaches the pattern `0x7FF0000000000000` of infinity
+exactly when the rounded value is `≥ 2^1024`: the overflow case. -/
+def roundQuotF64 (N d : Nat) : Nat :=
+  let qe := f64Quantum (N / d)
+  qe * 2 ^ 52 + rneNat N (d * 2 ^ qe)
+
+/-- Python `a / d` for `int`s, `d ≥ 0` (`long_true_divide`): `ZeroDivisionError` for `d = 0`;
+otherwise the CORRECTLY ROUNDED binary64 quotient (round-half-to-even of the exact `a / d`; sign of
+`a`, also on a zero result of a negative `a` that underflowed), as a binary64 pattern;
+`OverflowError('integer division result too large for a float')` when that would be infinite. Both
+errors are `Err.other`. -/
+def intTrueDiv (a : Int) (d : Nat) : Except Err Nat :=
+  if d = 0 then .error .other
+  else
+    let m := roundQuotF64 (a.natAbs * 2 ^ 1074) d
+    if f64InfPat ≤ m then .error .other
+    else .ok ((if a < 0 then 2 ^ 63 else 0) + m)
+
+/-- `FixedPoint.read` (basic.py:121-122): `self.integer_type.read(file_object) / self.denominator` —
+Python TRUE DIVISION of an `int` by an `int`: the result is a Python `float`, the correctly rounded
+binary64 quotient (`intTrueDiv`), returned here as its binary64 pattern. It equals the exact fraction
+`raw / denominator` whenever that is a binary64 (always for `|raw| < 2^53` and a denominator up to
+`2^1074`, hence for every base type of at most 32 bits); for 64-bit bases beyond `2^53` it is the
+nearest binary64, ties to even (`read` of `00 20 00 00 00 00 00 01` as `FixedPoint(Long, 0)` is
+`9007199254740992.0`, not `9007199254740993`). -/
+def FixedPointT.read (cc : CustomCodec) (fp : FixedPointT) (bs : Bytes) :
+    Except Err (Nat × Bytes) := do
+  let (v, r) ← decode cc (.int fp.integerType) bs
+  match v with
+  | .int w => do
+    let x ← intTrueDiv w fp.denominator
+    pure (x, r)
+  | _ => .error .type
+
+/-- the exact value of the finite binary64 with pattern `x`, as an unreduced fraction
+`(numerator, denominator)` — what `fractions.Fraction(float)` denotes -/
+def f64Frac (x : Nat) : Int × Nat :=
+  (if x / 2 ^ 63 % 2 = 1 then -(f64Mag (x % 2 ^ 63) : Int) else (f64Mag (x % 2 ^ 63) : Int), 2 ^ 1074)
+
+/-- the same fraction in lowest terms (for printing) -/
+def f64FracReduced (x : Nat) : Int × Nat :=
+  let f := f64Frac x
+  let g := Nat.gcd f.1.natAbs f.2
+  (f.1 / (g : Int), f.2 / g)
+
 /-- `Double.send` (basic.py:246-247): `struct.pack('>d', value)`: the 64-bit pattern, big-endian. -/
 def doubleSend (cc : CustomCodec) (x : Nat) : Except Err Bytes := encode cc (.int .f64) (.int x)
 
@@ -371,13 +416,15 @@ def fixedSendProbeOk (cc : CustomCodec)
     ((FixedPointT.init base row.2.1).send cc row.2.2.2.1 row.2.2.2.2.1 == row.2.2.2.2.2)
 
 /-- (integer class, fractional_bits, bytes, reduced fraction num/den of the live
-`FixedPoint(cls, bits).read(bytes ++ [9])`): equal as fractions, `[9]` left unread -/
+`FixedPoint(cls, bits).read(bytes ++ [9])`, i.e. the exact value of the float returned): the float the
+model returns is finite and has exactly that value, `[9]` left unread -/
 def fixedReadProbeOk (cc : CustomCodec) (row : String × Nat × Bytes × Int × Nat) : Bool :=
   match classIntT row.1 with
   | none => false
   | some base =>
     match (FixedPointT.init base row.2.1).read cc (row.2.2.1 ++ [9]) with
-    | .ok ((num, den), r) => (r == [9]) && (num * (row.2.2.2.2 : Int) == row.2.2.2.1 * den)
+    | .ok (x, r) => (r == [9]) && (x % 2 ^ 63 / 2 ^ 52 != 2047) &&
+        ((f64Frac x).1 * (row.2.2.2.2 : Int) == row.2.2.2.1 * ((f64Frac x).2 : Int))
     | .error _ => false
 
 end PyCraft.C02X
